@@ -966,12 +966,19 @@ func (vc *VC) Generate() (err error) {
 	st := &State{heap: map[string]string{}, ghost: map[string]string{}, alloc: "alloc!0"}
 	vc.entry = st.clone()
 	vc.asserts = append(vc.asserts, sx(">", "alloc!0", fmt.Sprint(vc.w.numGlobals()+1)))
-	for _, p := range fn.Params {
-		name := "p_" + p.Name()
+	for i, p := range fn.Params {
+		pn := p.Name()
+		if vc.fc != nil && len(vc.fc.Params) == len(fn.Params) {
+			pn = vc.fc.Params[i] // contract-declared names (synthesized wrappers have no source names)
+		}
+		name := fmt.Sprintf("p_%s", pn)
+		if pn == "" || pn == "_" {
+			name = fmt.Sprintf("p_arg%d", i)
+		}
 		vc.declare(name, vc.enc.SortOf(p.Type()))
 		vc.vals[p] = name
 		vc.assume("true", vc.typeInv(st, name, p.Type()))
-		vc.params[p.Name()] = SpecVal{T: name, Sort: vc.enc.SortOf(p.Type()), GoT: p.Type()}
+		vc.params[pn] = SpecVal{T: name, Sort: vc.enc.SortOf(p.Type()), GoT: p.Type()}
 	}
 	for _, fv := range fn.FreeVars {
 		_ = vc.val(fv)
